@@ -102,13 +102,87 @@ def noise_session(rng, calls, name=b"dev"):
     return "noise none " + " ".join(ops), impl_line, problems
 
 
+def flow_control_probe(kind, rng, ids):
+    """A transport that signals back-pressure (pause_writing ... resume_writing) while batches are written: each write_packets
+    call must still hand exactly one write to the transport before it returns, in call order."""
+    loop = asyncio.new_event_loop()
+    asyncio.set_event_loop(loop)
+    try:
+        if kind == "plaintext":
+            from aioesphomeapi._frame_helper.plain_text import APIPlaintextFrameHelper
+            h = APIPlaintextFrameHelper(connection=MagicMock(), client_info="x", log_name="x")
+            tr = MagicMock()
+            writes = []
+            tr.write.side_effect = lambda d: writes.append(bytes(d))
+            h.connection_made(tr)
+            decode = lambda d: simnet.decode_plain_stream(d)  # noqa: E731
+        else:
+            psk = rng.randbytes(32)
+            resp = noisesim.Responder(psk, b"dev")
+            sess = noisesim.ImplSession(noisesim.b64(psk), None)
+            sess.op("made")
+            frames = noisesim.split_frames(sess.writes[0])
+            hs_frame, _ = resp.handshake_frames(frames[1][1:])
+            sess.op("data", resp.hello_frame() + hs_frame)
+            h, writes = sess.helper, sess.writes
+            del writes[:]
+
+            def decode(d):
+                out = []
+                for f in noisesim.split_frames(d):
+                    pt = resp.decrypt_client_frame(f)      # raises when the nonce is not the next one
+                    out.append((pt[0] << 8 | pt[1], pt[4:]))
+                return out
+        schedule, detail = [], []
+        n = rng.randrange(3, 8)
+        pauses = sorted(rng.sample(range(n), 2))
+        for i in range(n):
+            if i == pauses[0]:
+                schedule.append(("pause",))
+            if i == pauses[1]:
+                schedule.append(("resume",))
+            schedule.append(("write", [(rng.choice(ids), rng.randbytes(rng.choice([0, 1, 5, 300]))) for _ in range(rng.choice([1, 1, 2, 3]))]))
+            if rng.random() < 0.3:
+                schedule.append(("turn",))
+        schedule.append(("turn",))
+        bad = None
+        for step in schedule:
+            if step[0] == "pause":
+                h.pause_writing()
+                detail.append("pause_writing")
+            elif step[0] == "resume":
+                h.resume_writing()
+                detail.append("resume_writing")
+            elif step[0] == "turn":
+                loop.run_until_complete(asyncio.sleep(0))
+                loop.run_until_complete(asyncio.sleep(0))
+                detail.append("loop turn")
+            else:
+                n0 = len(writes)
+                h.write_packets(step[1], False)
+                new = writes[n0:]
+                detail.append(f"write_packets {[(t, len(p)) for t, p in step[1]]} -> {len(new)} write(s)")
+                if len(new) != 1:
+                    bad = bad or f"{len(new)} transport writes by the time write_packets returned (one is due)"
+                else:
+                    try:
+                        if decode(new[0]) != step[1]:
+                            bad = bad or "the write does not carry the batch just given"
+                    except Exception as e:  # noqa: BLE001
+                        bad = bad or f"the write does not decode / authenticate in order: {type(e).__name__}"
+        return bad, detail
+    finally:
+        loop.close()
+        asyncio.set_event_loop(asyncio.new_event_loop())
+
+
 def run(rep, tier, seed):
     rng = random.Random(seed)
     asyncio.set_event_loop(asyncio.new_event_loop())
     rep.coverage["rule"] = (
         "plaintext + Noise write_packets on packet batches (every registered id; payload sizes 0/1/127/128/16383/16384/65514/65515 and random; "
         "batches of 1-8) and Noise sessions of consecutive write calls (nonce continuity), plus APIConnection.send_messages for every registered "
-        "message class over SimNet; non-trivial = batch with a multi-byte varint or >1 packet, or a Noise session with >=2 calls; distinct by sha1 of the case")
+        "message class over SimNet (all-default and populated instances, in both orders), and write_packets under pause_writing/resume_writing; non-trivial = batch with a multi-byte varint or >1 packet, or a Noise session with >=2 calls; distinct by sha1 of the case")
     from translate import all as translate_all
     translate_all.run_all()
     proofs_ok = rep.proofs(VFILE)
@@ -188,6 +262,16 @@ def run(rep, tier, seed):
         rep.violation("C02/noise/oversize", "noise write_packets with a payload > 65515 bytes: " + what,
                       {"kind": "impl-trace", "helper": "noise", "calls": [[[1, "00 * 65516"]]]})
 
+    # ---- flow control callbacks of the transport must not delay, merge or reorder writes
+    for kind in ("plaintext", "noise"):
+        for trial in range(6 if tier == "quick" else 40):
+            bad, detail = flow_control_probe(kind, rng, ids)
+            rep.case(("flow", kind, trial), True, sample={"kind": "flow-control", "helper": kind, "detail": detail[:3]})
+            rep.bump("flow:" + kind)
+            if bad:
+                rep.violation("C02/flow-control", f"{kind} helper, pause_writing/resume_writing around write_packets: {bad}",
+                              {"kind": "impl-trace", "helper": kind, "schedule": detail})
+
     # ---- connection level: send_messages = one write, ids from the registry
     def conn_sweep(loop):
         net = simnet.Net(loop)
@@ -197,17 +281,24 @@ def run(rep, tier, seed):
             with net.patched():
                 cli, tr = await simnet.connected_client(loop, net)
                 conn = cli._connection
+                from checks.c14 import fill_message
                 classes = list(MESSAGE_TYPE_TO_PROTO.items())
-                batches = [[c] for c in classes] + [[classes[rng.randrange(len(classes))] for _ in range(rng.randrange(2, 6))] for _ in range(40)]
+                batches = [[(i, cls())] for i, cls in classes]
+                batches += [[(i, cls()) for i, cls in (classes[rng.randrange(len(classes))] for _ in range(rng.randrange(2, 6)))] for _ in range(40)]
+                # populated instances AFTER an all-default instance of the same class went out (and the other way round): what is
+                # written must be the message given now, whatever was sent before
+                for i, cls in classes:
+                    batches.append([(i, fill_message(rng, cls))])
+                    batches.append([(i, cls()), (i, fill_message(rng, cls)), (i, cls())])
                 for b in batches:
                     n0 = len(tr.writes)
-                    conn.send_messages(tuple(cls() for _, cls in b))
-                    out.append((b, [d for _, d in tr.writes[n0:]]))
+                    want = [(i, m.SerializeToString()) for i, m in b]
+                    conn.send_messages(tuple(m for _, m in b))
+                    out.append(([(i, type(m)) for i, m in b], want, [d for _, d in tr.writes[n0:]]))
                 await cli.disconnect(force=True)
             return out
         return inner()
-    for b, writes in simnet.run(conn_sweep):
-        exp = [(i, cls().SerializeToString()) for i, cls in b]
+    for b, exp, writes in simnet.run(conn_sweep):
         rep.case(("conn", tuple(i for i, _ in b)), True, sample=None)
         rep.bump("conn:batch=%d" % min(len(b), 6))
         rep.coverage["traces_validated_against_impl"] += 1
